@@ -386,7 +386,9 @@ class Check:
             json.dump({"property": self.pid, "tier": self.tier, "seed": self.seed, "key": key, "layer": f.layer,
                        "what": f.what, "occurrences": len(fs), "input": f.replay,
                        "broken_obligations": [list(x) for x in self.l1_broken]}, open(path, "w"), indent=1, default=str)
-            lines.append(f"VIOLATION property={self.pid} replay={path}")
+            # a harness-error key means the correspondence itself could not be run on the current code (a wrapper or
+            # recorder no longer fits): the property is no longer shown to hold, but no failing input was exhibited
+            lines.append(f"VIOLATION property={self.pid} replay={path}" + (" no-failing-input-found" if "harness-error" in key else ""))
             nviol += 1
         if self.l1_broken and nviol == 0:
             path = f"{VERIF}/replays/{self.pid}/broken_obligation.json"
